@@ -901,49 +901,53 @@ def explore(ctx, calls, triples_design, triples_export, plans):
     return behs, [c for c in res[2] if c["c"]["fam"] == "geom"], [c for c in res[2] if c["c"]["fam"] == "npy"]
 
 
+def _any_work(tagged):
+    kind, item = tagged
+    return {"b": _beh_work, "g": _geom_work, "n": _npy_work, "s": _store_work}[kind](item)
+
+
 def collect(behs, gitems, nitems, sitems, violation, count, procs=None):
     """runs everything on the real code (in forked children, which may use threads); verdicts that are taken by
     comparing with the exported specification state are reported at once, the records go to TLC -> records"""
     recs = []
-    dbg = os.environ.get("VERIF_DEBUG")
     t0 = time.time()
-
-    def lap(what):
-        nonlocal t0
-        if dbg:
-            print("  [%s: %.1fs]" % (what, time.time() - t0), flush=True)
-        t0 = time.time()
-    for beh, res in zip(behs, pmap(_beh_work, behs, procs=procs, chunk=16, always=True)):
-        count(("beh", beh["c"], beh["lm"], beh["sm"], [(e["a"], e["k"]) for e in beh["ev"]]), True)
-        if res is not None:
-            clause, detail = res
-            violation("replay:%s:lock=%s:%s" % (clause, beh["lm"], beh["sm"]),
-                      "%s: da.store does not follow the behaviour of the specification" % clause,
-                      {"kind": "behaviour", "beh": beh, "observed": detail})
-    lap("%d behaviours" % len(behs))
-    for (case, exp, variant, rid), (clause, rec, _v) in zip(gitems, pmap(_geom_work, gitems, procs=procs, chunk=32, always=True)):
-        if clause == "GUARD":
-            raise MachineryError("Store!Expected disagrees with NumPy assignment on %r: %r" % (case, rec))
-        count(("geom", case, variant), n_blocks(case["call"]) >= 2)
-        recs.append(rec)
-        if clause:
-            violation(classify(rec, clause), "%s: da.store disagrees with the specification on an enumerated region/chunking case" % clause,
-                      {"kind": "geom", "case": case, "expected": exp, "variant": variant, "observed": rec})
-    lap("%d geom" % len(gitems))
-    for (case, exp, variant, rid, _s), (clause, rec, _v) in zip(nitems, pmap(_npy_work, nitems, procs=procs, chunk=32, always=True)):
-        if clause == "GUARD":
-            raise MachineryError("npy-stack expectation of the specification is inconsistent on %r: %r" % (case, rec))
-        count(("npy", case, variant), len(case["chunks"][case["axis"] - 1]) >= 2)
-        recs.append(rec)
-        if clause:
-            violation(classify(rec, clause), "%s: the npy stack does not round-trip" % clause,
-                      {"kind": "npy", "case": case, "expected": exp, "variant": variant, "observed": rec})
-    lap("%d npy" % len(nitems))
-    for item, rec in zip(sitems, pmap(_store_work, sitems, procs=procs, chunk=32, always=True)):
-        count(("store", item["call"], item["lm"], item["sm"], item["sched"], item["plain"]), nontrivial(item["call"]))
-        rec["_item"] = item
-        recs.append(rec)
-    lap("%d random" % len(sitems))
+    tagged = [("b", x) for x in behs] + [("g", x) for x in gitems] + [("n", x) for x in nitems] + [("s", x) for x in sitems]
+    results = pmap(_any_work, tagged, procs=procs, chunk=16, always=True)
+    if os.environ.get("VERIF_DEBUG"):
+        print("  [%d behaviours, %d geometry cases, %d npy cases, %d random calls: %.1fs]"
+              % (len(behs), len(gitems), len(nitems), len(sitems), time.time() - t0), flush=True)
+    for (kind, item), res in zip(tagged, results):
+        if kind == "b":
+            beh = item
+            count(("beh", beh["c"], beh["lm"], beh["sm"], [(e["a"], e["k"]) for e in beh["ev"]]), True)
+            if res is not None:
+                clause, detail = res
+                violation("replay:%s:lock=%s:%s" % (clause, beh["lm"], beh["sm"]),
+                          "%s: da.store does not follow the behaviour of the specification" % clause,
+                          {"kind": "behaviour", "beh": beh, "observed": detail})
+        elif kind == "g":
+            (case, exp, variant, rid), (clause, rec, _v) = item, res
+            if clause == "GUARD":
+                raise MachineryError("Store!Expected disagrees with NumPy assignment on %r: %r" % (case, rec))
+            count(("geom", case, variant), n_blocks(case["call"]) >= 2)
+            recs.append(rec)
+            if clause:
+                violation(classify(rec, clause), "%s: da.store disagrees with the specification on an enumerated region/chunking case" % clause,
+                          {"kind": "geom", "case": case, "expected": exp, "variant": variant, "observed": rec})
+        elif kind == "n":
+            (case, exp, variant, rid, _s), (clause, rec, _v) = item, res
+            if clause == "GUARD":
+                raise MachineryError("npy-stack expectation of the specification is inconsistent on %r: %r" % (case, rec))
+            count(("npy", case, variant), len(case["chunks"][case["axis"] - 1]) >= 2)
+            recs.append(rec)
+            if clause:
+                violation(classify(rec, clause), "%s: the npy stack does not round-trip" % clause,
+                          {"kind": "npy", "case": case, "expected": exp, "variant": variant, "observed": rec})
+        else:
+            rec = res
+            count(("store", item["call"], item["lm"], item["sm"], item["sched"], item["plain"]), nontrivial(item["call"]))
+            rec["_item"] = item
+            recs.append(rec)
     return recs
 
 
@@ -1115,15 +1119,17 @@ def selftest(ctx):
     behs, gcases, ncases = explore(ctx, calls, triples, triples, plans)
     rng = random.Random(11)
     behs = sorted(behs, key=lambda b: (b["c"], b["lm"], b["sm"], str(b["ev"])))
-    behs = rng.sample(behs, min(len(behs), 40))
-    gcases = rng.sample(gcases, min(len(gcases), 60))
+    behs = rng.sample(behs, min(len(behs), 24))
+    gcases = rng.sample(gcases, min(len(gcases), 30))
     gitems = [(c["c"], c["e"], rng.randrange(168), "g%d" % i) for i, c in enumerate(gcases)]
     nitems = [(c["c"], c["e"], rng.randrange(60), "n%d" % i, ctx.scratch) for i, c in enumerate(ncases)]
-    sitems = [it for it in gen_items(rng, 90, "s") if not dup_pairs(it["call"])][:60]
+    sitems = [it for it in gen_items(rng, 90, "s") if not dup_pairs(it["call"])][:40]
 
-    def attempt(tag):
+    def attempt(tag, npy=None):
         out = []
-        recs = collect(behs, gitems, nitems, sitems, lambda sig, what, rp: out.append(sig), lambda k, n: None, procs=4)
+        t0 = time.time()
+        parts = (behs, gitems, nitems, sitems) if npy is None else ([], [], nitems, []) if npy else (behs, gitems, [], sitems)
+        recs = collect(*parts, lambda sig, what, rp: out.append(sig), lambda k, n: None, procs=4)
         for r in recs:
             r["id"] = "%s-%s" % (tag, r["id"])
         return out, recs
@@ -1131,7 +1137,7 @@ def selftest(ctx):
     runs = [("base", "unchanged tree", attempt("base"))]
     for i, (name, make) in enumerate(mutants()):
         with make():
-            runs.append(("m%d" % i, name, attempt("m%d" % i)))
+            runs.append(("m%d" % i, name, attempt("m%d" % i, npy="npy_stack" in name)))
     # recorded traces, corrupted by hand
     good = next(r for r in runs[0][2][1] if r["kind"] == "store" and r["lm"] == "user" and r["obs"] == "events" and not r["lazy"]
                 and sum(1 for e in r["ev"] if e["a"] == "wb") >= 2 and not r["raised"])
